@@ -10,7 +10,7 @@ static std::vector<Item> g_pool;
 static std::unique_ptr<AJ::JsonDocument> g_docA, g_docB;
 static StringArena g_arena;
 
-static void add(const MVal& m, int storage = 0) { g_pool.push_back({m, storage}); }
+static void add(const MVal& m, int storage = 0) { g_pool.push_back({stored_form(m), storage}); }   // stored_form: 32-bit JsonFloat builds round every double
 
 static void make_pool() {
   if (!g_pool.empty()) return;
